@@ -534,11 +534,91 @@ def two_layer_shard(kind, depth):
     return tally
 
 
+def recurrent_layer_shard(kind, depth):
+    """one trainer on the three cells of a RecurrentSerial(trainable_feedback=True) whose populations differ in size (cells share
+    neuron groups): for every sequence over {step, clear, trainer.eval/train, layer.eval/train} every monitor of every cell
+    records exactly one observation per step taken with both in training mode, none otherwise - from the very first step and
+    from the first step after a clear"""
+    from inferno.neural import RecurrentSerial
+    tally = Tally()
+    ops = [("step",), ("clear",), ("eval",), ("train",), ("leval",), ("ltrain",)]
+
+    def world():
+        def conn(i, o):
+            c = LinearDense((i,), (o,), DT, synapse=DeltaCurrent.partialconstructor(DT), batch_size=1, weight_init=lambda w: torch.full_like(w, 0.5))
+            c.updater = c.defaultupdater()
+            return c
+        nff = ExactNeuron((2,), DT, rest_v=-60.0, thresh_v=-45.0, batch_size=1)
+        nfb = ExactNeuron((3,), DT, rest_v=-60.0, thresh_v=-45.0, batch_size=1)
+        layer = RecurrentSerial(conn(2, 2), conn(2, 3), conn(3, 2), nff, nfb, trainable_feedback=True)
+        tr = make_trainer(kind, 0)
+        cells = dict(layer.named_cells) if hasattr(layer, "named_cells") else None
+        return layer, tr
+
+    for d in range(1, depth + 1):
+        for seq in itertools.product(ops, repeat=d):
+            if seq[-1][0] != "step" or any(seq[i] == seq[i + 1] and seq[i][0] != "step" for i in range(len(seq) - 1)):
+                continue
+            tally.add("transitions")
+            case = {"config": {"trainers": [kind], "layer": "RecurrentSerial[2,3] trainable feedback"}, "history": [list(o) for o in seq]}
+            try:
+                layer, tr = world()
+                names = []
+                for cn, cell in layer.named_cells:
+                    nm = "_".join(cn) if isinstance(cn, tuple) else str(cn)
+                    tr.register_cell(nm, cell)
+                    names.append(nm)
+                counts, hooked = {}, {}
+                for nm in names:
+                    for n, mon in tr.named_monitors_of(nm):
+                        if id(mon.reducer) not in hooked:
+                            counts[id(mon.reducer)] = 0
+                            mon.reducer.register_forward_hook(lambda m_, a_, o_, key=id(mon.reducer): counts.__setitem__(key, counts[key] + 1))
+                            hooked[id(mon.reducer)] = mon.reducer
+                ttrain, ltrain = True, True
+                for k, op in enumerate(seq):
+                    if op[0] == "clear":
+                        layer.clear()
+                        tr.clear()
+                    elif op[0] == "eval":
+                        tr.eval()
+                        ttrain = False
+                    elif op[0] == "train":
+                        tr.train()
+                        ttrain = True
+                    elif op[0] == "leval":
+                        layer.eval()
+                        ltrain = False
+                    elif op[0] == "ltrain":
+                        layer.train()
+                        ltrain = True
+                    else:
+                        before = dict(counts)
+                        x = torch.tensor([[1, k % 2]], dtype=torch.bool)
+                        layer(x, feedfwd_neuron_kwargs={"override": torch.tensor([[1, (k + 1) % 2]], dtype=torch.bool)},
+                              feedback_neuron_kwargs={"override": torch.tensor([[1, 0, k % 2]], dtype=torch.bool)})
+                        exp = 1 if (ttrain and ltrain) else 0
+                        for nm in names:
+                            for n, mon in tr.named_monitors_of(nm):
+                                delta = counts[id(mon.reducer)] - before[id(mon.reducer)]
+                                if delta != exp:
+                                    tally.violation(f"recurrent-layer:{'missed' if delta < exp else 'extra'}-observation:{kind}:{n}", {**case, "step_index": k},
+                                                    f"step {k}: monitor '{n}' of cell '{nm}' recorded {delta} observation(s), expected {exp}", exp, delta)
+                tally.mark("nontrivial", ("recurrent-layer", kind, seq))
+            except Exception as ex:
+                tally.violation(f"recurrent-layer:exception:{kind}:{type(ex).__name__}", case, f"{type(ex).__name__}: {ex}", None, repr(ex))
+    tally.add("states", 1)
+    tally.sample({"part": "recurrent layer, unequal populations", "trainer": kind, "depth": depth})
+    return tally
+
+
 def run(rep):
     quick = rep.tier == "quick"
     jobs = []
     for k in ("stdp", "mstdpet", "kernel"):
         jobs.append((two_layer_shard, (k, 4 if quick else 5)))
+    for k in ("stdp", "kernel"):
+        jobs.append((recurrent_layer_shard, (k, 3 if quick else 4)))
     depth1 = 5 if quick else 7
     depth2 = 3 if quick else 5
     cap = 2500 if quick else 20000
